@@ -19,7 +19,7 @@
 (*   CastInPlace   : casts are written into the caller's document          *)
 (***************************************************************************)
 EXTENDS Schema, TLC
-CONSTANTS Threads, MaxCalls, AsCodedReinit, CastInPlace
+CONSTANTS Threads, MaxCalls, AsCodedReinit, CastInPlace, AllowEdits
 
 I(n) == IntV(n)
 Sa == StrV(<<97>>)  Sb == StrV(<<98>>)
@@ -36,6 +36,10 @@ Docs0 == << MapV(<< <<Sa, S3>>, <<Sb, ListV(<<S7, Sx3, I(1)>>)>>, <<I(1), I(5)>>
             ListV(<<I(3), I(20), Sa>>),
             \* equal to the second document under python ==, typed differently (3.0, True-free): a stale result shows
             ListV(<<V("float", 24, <<>>), I(20), Sa>>) >>
+\* what the CALLER may change its documents to between calls (an in-place edit below the top level, a retyped item)
+DocsAlt == << MapV(<< <<Sa, S3>>, <<Sb, ListV(<<StrV(<<50>>), Sx3, I(1)>>)>>, <<I(1), I(5)>> >>),
+              ListV(<<I(3), I(2), Sa>>),
+              ListV(<<I(3), I(20), Sa>>) >>
 Order == StableOrder(Rules0)
 
 \* calls: <<kind, rule index (0 = whole schema), document index>>
@@ -44,14 +48,15 @@ Calls == {<<"validate", 0, d>> : d \in 1..Len(Docs0)} \cup
          {<<"getdata", r, d>> : r \in {1, 3}, d \in 1..Len(Docs0)} \cup
          {<<"filter", 1, 2>>, <<"filter", 1, 3>>}
 
-VARIABLES intact, docs, pc, cur, k, sel, si, copy, tests, res, ncalls
-vars == <<intact, docs, pc, cur, k, sel, si, copy, tests, res, ncalls>>
+VARIABLES intact, docs, pc, cur, k, sel, si, copy, tests, res, ncalls, owner, snap
+vars == <<intact, docs, pc, cur, k, sel, si, copy, tests, res, ncalls, owner, snap>>
 
 Init == /\ intact = TRUE /\ docs = Docs0
         /\ pc = [t \in Threads |-> "idle"] /\ cur = [t \in Threads |-> <<"none", 0, 1>>]
         /\ k = [t \in Threads |-> 0] /\ sel = [t \in Threads |-> <<>>] /\ si = [t \in Threads |-> 0]
         /\ copy = [t \in Threads |-> None] /\ tests = [t \in Threads |-> <<>>]
         /\ res = [t \in Threads |-> [kind |-> "none"]] /\ ncalls = [t \in Threads |-> 0]
+        /\ owner = Docs0 /\ snap = [t \in Threads |-> None]
 
 RuleIdxs(c) == IF c[1] = "validate" THEN Order ELSE <<c[2]>>
 CurRule(t) == Rules0[RuleIdxs(cur[t])[k[t]]]
@@ -64,7 +69,8 @@ Start(t, c) ==
   /\ tests' = [tests EXCEPT ![t] = <<>>]
   /\ pc' = [pc EXCEPT ![t] = "resolve"]
   /\ ncalls' = [ncalls EXCEPT ![t] = @ + 1]
-  /\ UNCHANGED <<intact, docs, sel, si, res>>
+  /\ snap' = [snap EXCEPT ![t] = docs[c[3]]]
+  /\ UNCHANGED <<intact, docs, sel, si, res, owner>>
 
 \* path resolution of the current rule on the caller's document
 Resolve(t) ==
@@ -75,7 +81,7 @@ Resolve(t) ==
      /\ intact' = IF AsCodedReinit /\ HasMol(rule) THEN FALSE ELSE intact
      /\ pc' = [pc EXCEPT ![t] = IF cur[t][1] \in {"getdata", "filter"} THEN "finish"
                                 ELSE IF rule.cast = <<>> THEN "judge" ELSE "cast"]
-  /\ UNCHANGED <<docs, cur, k, copy, tests, res, ncalls>>
+  /\ UNCHANGED <<docs, cur, k, copy, tests, res, ncalls, owner, snap>>
 
 \* one selected node: a successful cast is written into the private copy
 Cast(t) ==
@@ -89,7 +95,7 @@ Cast(t) ==
                   ELSE copy' = [copy EXCEPT ![t] = Put(@, n[2], c1.v)] /\ UNCHANGED docs
              ELSE UNCHANGED <<copy, docs>>
           /\ UNCHANGED pc
-  /\ UNCHANGED <<intact, cur, k, sel, tests, res, ncalls>>
+  /\ UNCHANGED <<intact, cur, k, sel, tests, res, ncalls, owner, snap>>
 
 Judge(t) ==
   /\ pc[t] = "judge"
@@ -100,7 +106,7 @@ Judge(t) ==
   /\ IF k[t] < Len(RuleIdxs(cur[t]))
      THEN k' = [k EXCEPT ![t] = @ + 1] /\ pc' = [pc EXCEPT ![t] = "resolve"]
      ELSE UNCHANGED k /\ pc' = [pc EXCEPT ![t] = "finish"]
-  /\ UNCHANGED <<intact, docs, cur, sel, si, copy, res, ncalls>>
+  /\ UNCHANGED <<intact, docs, cur, sel, si, copy, res, ncalls, owner, snap>>
 
 Finish(t) ==
   /\ pc[t] = "finish"
@@ -109,31 +115,40 @@ Finish(t) ==
          [] cur[t][1] = "ruletest" -> [kind |-> "ruletest", tests |-> tests[t], cast_data |-> copy[t]]
          [] OTHER -> [kind |-> cur[t][1], sel |-> sel[t]]]
   /\ pc' = [pc EXCEPT ![t] = "idle"]
-  /\ UNCHANGED <<intact, docs, cur, k, sel, si, copy, tests, ncalls>>
+  /\ UNCHANGED <<intact, docs, cur, k, sel, si, copy, tests, ncalls, owner, snap>>
 
-Next == \E t \in Threads : \/ \E c \in Calls : Start(t, c)
-                           \/ Resolve(t) \/ Cast(t) \/ Judge(t) \/ Finish(t)
+\* the caller edits one of its own documents in place (only between calls: editing a document while a call on it
+\* is in progress would be the caller's data race)
+CallerEdits(d) ==
+  /\ AllowEdits /\ \A t \in Threads : pc[t] = "idle"
+  /\ \E t \in Threads : ncalls[t] < MaxCalls
+  /\ LET new == IF owner[d] = Docs0[d] THEN DocsAlt[d] ELSE Docs0[d] IN
+     docs' = [docs EXCEPT ![d] = new] /\ owner' = [owner EXCEPT ![d] = new]
+  /\ UNCHANGED <<intact, pc, cur, k, sel, si, copy, tests, res, ncalls, snap>>
+Next == \/ \E t \in Threads : \/ \E c \in Calls : Start(t, c)
+                              \/ Resolve(t) \/ Cast(t) \/ Judge(t) \/ Finish(t)
+        \/ \E d \in 1..Len(Docs0) : CallerEdits(d)
 Spec == Init /\ [][Next]_vars /\ \A t \in Threads : WF_vars(Resolve(t) \/ Cast(t) \/ Judge(t) \/ Finish(t))
 
 (***************************************************************************)
 (* Properties                                                              *)
 (***************************************************************************)
 \* what the same call gives on freshly built objects and the caller's original document
-Fresh(c) ==
+Fresh(c, d0) ==
   IF c[1] = "validate"
-  THEN LET x == Validate(Rules0, Docs0[c[3]], Design) IN
+  THEN LET x == Validate(Rules0, d0, Design) IN
        [kind |-> "validate", tests |-> [j \in 1..Len(x.tests) |-> x.tests[j].t], cast_data |-> x.cast_data]
   ELSE IF c[1] = "ruletest"
-  THEN LET rule == Rules0[c[2]]  d == Docs0[c[3]]
+  THEN LET rule == Rules0[c[2]]  d == d0
            cp == IF rule.cast = <<>> THEN d ELSE ApplyCasts(rule, d, d)
        IN [kind |-> "ruletest", tests |-> <<RuleTest(rule, IF rule.cast = <<>> THEN d ELSE cp, IF rule.cast = <<>> THEN d ELSE cp, TRUE)>>,
            cast_data |-> cp]
-  ELSE [kind |-> c[1], sel |-> Select(Rules0[c[2]].path, Docs0[c[3]])]
+  ELSE [kind |-> c[1], sel |-> Select(Rules0[c[2]].path, d0)]
 
 Immutable == intact
-DocsUnchanged == docs = Docs0
+DocsUnchanged == docs = owner
 \* every finished call returned what it returns on fresh objects, whatever the other threads did meanwhile
-Repeatable == \A t \in Threads : (pc[t] = "idle" /\ res[t].kind # "none") => res[t] = Fresh(cur[t])
+Repeatable == \A t \in Threads : (pc[t] = "idle" /\ res[t].kind # "none") => res[t] = Fresh(cur[t], snap[t])
 \* every started call finishes (no sub-step can block or abort)
 EveryCallReturns == \A t \in Threads : (pc[t] # "idle") ~> (pc[t] = "idle")
 =============================================================================
